@@ -295,6 +295,7 @@ def execute(case: dict) -> dict:
         from . import viafile
         held = viafile.hold(w, W.build(w))
         ds1 = held.ds
+        before1 = CD.snapshot(ds1)
         w2 = dict(w)
         w2["vars"] = [dict(v, base=v["base"] + OFFSET2) for v in w["vars"]]
         ds2 = W.build(w2)
@@ -354,6 +355,7 @@ def execute(case: dict) -> dict:
                             "names": sorted(str(n) for n in r.variables)}
                 e["obs"] = outcome(sv)
             rec["events"].append(e)
+        rec["input"] = {"before": before1, "after": CD.snapshot(ds1)}
         return rec
     finally:
         try:
